@@ -266,6 +266,12 @@ func runBurst(c *recorder, r *rand.Rand, t target, L int, b burstSpec, burstNo i
 				it.parked = true
 				everParked++
 				c.Count("parked_observed", 1)
+				if it.kind == kCancelEarly {
+					// its context is already cancelled: the distributed runner may leave Run() without being
+					// released by the harness, so it is never counted as "provably holding a slot"; let it go at once
+					it.fed = true
+					t.feed(it)
+				}
 			}
 		}
 		// late arrivals: after the scripted number of queries has been seen executing, or - if that can no
